@@ -50,7 +50,7 @@ def same_value(ex, a, b):
     return a == b
 
 
-def roundtrip_contract(module, clsname, build, variant='', skip=()):
+def roundtrip_contract(module, clsname, build, variant='', skip=(), param='state'):
     c = Contract(module, clsname + '.__setstate__', ['C17'], variant=variant or 'roundtrip')
     c.concrete_self = lambda ex, cls: ex.allocate(cls)
 
@@ -62,8 +62,8 @@ def roundtrip_contract(module, clsname, build, variant='', skip=()):
         finally:
             ex.force_inline = False
         fr.env['orig'] = orig
-        fr.env['state'] = st
-    c.hints['state'] = dict(value=None)
+        fr.env[param] = st
+    c.hints[param] = dict(value=None)
     c.setup(setup)
 
     def check(ex, fr, result):
@@ -246,3 +246,52 @@ def picklability_contract():
 
 
 picklability_contract()
+
+
+# ---- lineage cell states: __getstate__/__setstate__ pair and the __reduce__ route (class + constructor arguments)
+def build_lvcs(ex):
+    K = ex.program.find_class('LineageVolumeCellState')
+    st = Arr(ex.fresh('lstate', tm.ArraySort(INT, REAL)), [3], REAL, 'ndarray', 'lstate')
+    return ex.instantiate(K, [], dict(v0=ex.fresh('lv0', REAL), t0=ex.fresh('lt0', REAL), state=st, volume=ex.fresh('lvol', REAL), time=ex.fresh('ltime', REAL),
+                                      divided=2, dead=-1))
+
+
+roundtrip_contract('lineage', 'LineageVolumeCellState', build_lvcs, 'birth-and-current-values', skip=('volume_object', 'delay_queue'), param='state_tuple')
+
+
+def lvcs_reduce_contract():
+    c = Contract('lineage', 'LineageVolumeCellState.__reduce__', ['C17'], variant='reconstruct-from-class-and-arguments')
+    c.concrete_self = lambda ex, cls: build_lvcs(ex)
+
+    def check(ex, fr, result):
+        orig = fr.env['self']
+        ok = isinstance(result, tuple) and len(result) == 2
+        ex.oblige('post', tm.mk_bool(ok), label='class-and-arguments')
+        if not ok:
+            return
+        klass, args = result
+        ex.force_inline = True
+        try:
+            new = ex.instantiate(klass.cls if hasattr(klass, 'cls') else orig.cls, list(args), {})
+        finally:
+            ex.force_inline = False
+        for name in ('initial_volume', 'initial_time', 'volume', 'time', 'divided', 'dead', 'state', 'state_set'):
+            ex.oblige('post', tm.mk_bool(bool(same_value(ex, orig.fields.get(name), new.fields.get(name)))), label='field-%s-reconstructed' % name)
+    c.after(check)
+    c.opt(verify_only=True)
+    C.REGISTRY[c.key] = c
+    C.ORDER.append(c.key)
+
+
+lvcs_reduce_contract()
+
+
+def build_explineage(ex):
+    L = ex.instantiate(ex.program.find_class('ExperimentalLineage'), [], dict(species_indices={'A': 0, 'B': 1}))
+    m = build_schnitz(ex)
+    for s in (m, m.fields['daughter1'], m.fields['daughter2']):
+        ex.call_method(L, ex.program.find_method(L.cls, 'py_add_schnitz'), [s], {})
+    return L
+
+
+roundtrip_contract('types', 'ExperimentalLineage', build_explineage, 'three-schnitzes-and-species-map')
